@@ -23,6 +23,7 @@ var tinyPool = []interface{}{
 	bson.A{int32(1), int32(3)}, bson.A{int32(2)}, bson.A{"x", int32(0)}, bson.A{},
 	bson.D{{Key: "b", Value: int32(1)}}, bson.D{{Key: "b", Value: int32(2)}, {Key: "c", Value: "x"}},
 	bson.A{bson.D{{Key: "b", Value: int32(1)}}, bson.D{{Key: "b", Value: int32(5)}}},
+	bson.A{bson.D{{Key: "b", Value: bson.A{int32(3), int32(1)}}}, bson.D{{Key: "b", Value: int32(2)}}}, bson.A{bson.D{{Key: "c", Value: bson.A{"x", "y"}}}, bson.D{{Key: "c", Value: bson.A{"y"}}, {Key: "b", Value: bson.A{}}}},
 	gen.D128("1"), gen.D128("2.5"), 2.5,
 }
 
